@@ -36,6 +36,74 @@ func litParams(c *Ctx, fl *ast.FuncLit) []types.Object {
 	return ps
 }
 
+// c13Arm: the path converts the container `operand` (of family ct): exactly one total iteration of the operand with a function literal that
+// stores native(x) of the visited value under the same key into (appends it to) a result created by make on this path, which is returned.
+func c13Arm(c *Ctx, fobj *types.Func, p *Path, operand Term, ct *Cont) (good bool, why string) {
+	isNative := func(t Term, arg types.Object) bool {
+		call, ok := t.(TCall)
+		return ok && call.Fun == fobj && len(call.Args) == 1 && isParamTerm(call.Args[0], arg)
+	}
+	effs := p.Effects()
+	if len(effs) != 1 || effs[0].Kind != "call" || effs[0].Call == nil || effs[0].Call.Fun == nil || p.End != "return" || len(p.Vals) != 1 {
+		return false, "the arm is not: fresh result; one total iteration of the operand storing native(x); return result (a nested container would survive un-converted or be aliased)"
+	}
+	it := effs[0].Call
+	matchesOperand := it.Recv != nil && (sameTerm(it.Recv, operand) || sameTerm(it.Recv, TProj{operand, 0}))
+	if !matchesOperand || len(it.Args) != 1 {
+		return false, "the iteration is not a method of the operand"
+	}
+	lit, ok := it.Args[0].(TLit)
+	fl, isFl := lit.Node.(*ast.FuncLit)
+	if !ok || !isFl {
+		return false, "the iteration is not given a function literal"
+	}
+	ps := litParams(c, fl)
+	bp := c.NewSX().RunStmts(fl.Body.List, effs[0].Env)
+	if len(bp) != 1 || bp[0].Why != "" || len(bp[0].Conds()) != 0 {
+		return false, "the visitor is not a single unconditional statement"
+	}
+	// result variable: the local returned after the iteration (havoced by the callback, so a TLoop of that variable)
+	var resObj types.Object
+	if lv, ok := p.Vals[0].(TLoop); ok {
+		resObj = lv.Obj
+	}
+	resInit := Term(nil)
+	if resObj != nil {
+		// value before the iteration: the make(...) bound in the visitor's captured environment
+		resInit = bp[0].Env[resObj]
+	}
+	good = false
+	if !ct.IsList {
+		// v.ForEach(func(key, val) { result[key] = native(val) })
+		if it.Fun.Name() == "ForEach" && len(ps) == 2 && len(bp[0].Effects()) == 1 {
+			s := bp[0].Effects()[0]
+			if ix, ok := s.LHS.(TIndex); ok && s.Kind == "store" && isParamTerm(ix.I, ps[0]) && isNative(s.RHS, ps[1]) {
+				if mk, ok := ix.X.(TBuiltin); ok && mk.Name == "make" {
+					if _, isMap := mk.Type.Underlying().(*types.Map); isMap {
+						// the returned value is that map (maps are references: not havoced) or the same make term
+						good = sameTerm(p.Vals[0], ix.X)
+					}
+				}
+			}
+		}
+	} else {
+		// v.ForEachValue(func(h) { result = append(result, native(h)) })
+		if (it.Fun.Name() == "ForEachValue" && len(ps) == 1 || it.Fun.Name() == "ForEach" && len(ps) == 2) && len(bp[0].Effects()) == 0 && resObj != nil {
+			if ap, ok := resInit.(TBuiltin); ok && ap.Name == "append" && len(ap.Args) == 2 && isNative(ap.Args[1], ps[len(ps)-1]) {
+				if mk, ok := ap.Args[0].(TBuiltin); ok && mk.Name == "make" {
+					if _, isSl := mk.Type.Underlying().(*types.Slice); isSl {
+						good = true
+					}
+				}
+			}
+		}
+	}
+	if !good {
+		return false, "arm does not store native(x) of every visited value of the operand into a fresh result (a nested container would survive un-converted or be aliased)"
+	}
+	return true, ""
+}
+
 func c13Native(c *Ctx) {
 	fd := c.NeedDecl("C13.R1", "native")
 	if fd == nil {
@@ -50,10 +118,6 @@ func c13Native(c *Ctx) {
 	}
 	covered := map[*Cont]bool{}
 	n := 0
-	isNative := func(t Term, arg types.Object) bool {
-		call, ok := t.(TCall)
-		return ok && call.Fun == fobj && len(call.Args) == 1 && isParamTerm(call.Args[0], arg)
-	}
 	for i, p := range paths {
 		// the container interface this path established for the operand
 		var ct *Cont
@@ -85,67 +149,12 @@ func c13Native(c *Ctx) {
 		}
 		covered[ct] = true
 		ob := c.Ob("C13.R1", "native/case "+shortType(ct.Iface), posOfNode(p.Node))
-		effs := p.Effects()
-		if len(effs) != 1 || effs[0].Kind != "call" || effs[0].Call == nil || effs[0].Call.Fun == nil || p.End != "return" || len(p.Vals) != 1 {
-			ob.Fail("the arm is not: fresh result; one total iteration of the operand storing native(x); return result (a nested container would survive un-converted or be aliased)")
-			continue
-		}
-		it := effs[0].Call
-		matchesOperand := it.Recv != nil && (sameTerm(it.Recv, operand) || sameTerm(it.Recv, TProj{operand, 0}))
-		if !matchesOperand || len(it.Args) != 1 {
-			ob.Fail("the iteration is not a method of the operand")
-			continue
-		}
-		lit, ok := it.Args[0].(TLit)
-		fl, isFl := lit.Node.(*ast.FuncLit)
-		if !ok || !isFl {
-			ob.Fail("the iteration is not given a function literal")
-			continue
-		}
-		ps := litParams(c, fl)
-		bp := c.NewSX().RunStmts(fl.Body.List, effs[0].Env)
-		if len(bp) != 1 || bp[0].Why != "" || len(bp[0].Conds()) != 0 {
-			ob.Fail("the visitor is not a single unconditional statement")
-			continue
-		}
-		// result variable: the local returned after the iteration (havoced by the callback, so a TLoop of that variable)
-		var resObj types.Object
-		if lv, ok := p.Vals[0].(TLoop); ok {
-			resObj = lv.Obj
-		}
-		resInit := Term(nil)
-		if resObj != nil {
-			// value before the iteration: the make(...) bound in the visitor's captured environment
-			resInit = bp[0].Env[resObj]
-		}
-		good := false
-		if !ct.IsList {
-			// v.ForEach(func(key, val) { result[key] = native(val) })
-			if it.Fun.Name() == "ForEach" && len(ps) == 2 && len(bp[0].Effects()) == 1 {
-				s := bp[0].Effects()[0]
-				if ix, ok := s.LHS.(TIndex); ok && s.Kind == "store" && isParamTerm(ix.I, ps[0]) && isNative(s.RHS, ps[1]) {
-					if mk, ok := ix.X.(TBuiltin); ok && mk.Name == "make" {
-						if _, isMap := mk.Type.Underlying().(*types.Map); isMap {
-							// the returned value is that map (maps are references: not havoced) or the same make term
-							good = sameTerm(p.Vals[0], ix.X)
-						}
-					}
-				}
-			}
-		} else {
-			// v.ForEachValue(func(h) { result = append(result, native(h)) })
-			if (it.Fun.Name() == "ForEachValue" && len(ps) == 1 || it.Fun.Name() == "ForEach" && len(ps) == 2) && len(bp[0].Effects()) == 0 && resObj != nil {
-				if ap, ok := resInit.(TBuiltin); ok && ap.Name == "append" && len(ap.Args) == 2 && isNative(ap.Args[1], ps[len(ps)-1]) {
-					if mk, ok := ap.Args[0].(TBuiltin); ok && mk.Name == "make" {
-						if _, isSl := mk.Type.Underlying().(*types.Slice); isSl {
-							good = true
-						}
-					}
-				}
-			}
+		good, whyNot := c13Arm(c, fobj, p, operand, ct)
+		if whyNot == "" {
+			whyNot = "arm does not store native(x) of every visited value of the operand into a fresh result"
 		}
 		ob.Check(good, "fresh result; every visited value x is stored as native(x) under the same key / appended in visiting order (recursion through native itself, so no container survives at any depth)",
-			"arm does not store native(x) of every visited value of the operand into a fresh result (a nested container would survive un-converted or be aliased)")
+			whyNot)
 	}
 	for _, ct := range c.Inv().Conts {
 		c.Ob("C13.R1", "native/covers "+ct.Named.Obj().Name(), fd.Pos()).Check(covered[ct], "every "+ct.Named.Obj().Name()+" satisfies the "+shortType(ct.Iface)+" arm", "no arm for "+shortType(ct.Iface)+": such containers would be returned un-converted")
@@ -174,7 +183,24 @@ func c13Snapshots(c *Ctx) {
 			call, ok := t.(TCall)
 			good = ok && call.Fun == c.FuncObj(nat) && len(call.Args) == 1 && v.isSelf(call.Args[0])
 		}
-		ob.Check(good, "returns native(receiver)", "does not return native(receiver)")
+		if !good && why == "" && len(paths) == 1 {
+			// the conversion of the receiver spelled out here (a private helper shared with native, inlined): the same arm rule
+			for _, ct := range c.Inv().Conts {
+				if ct.IsList == (name == "(*list).NativeSlice") {
+					pp := *paths[0]
+					if len(pp.Vals) == 1 {
+						if a, ok := pp.Vals[0].(TAssert); ok {
+							pp.Vals = []Term{a.X}
+						}
+					}
+					recv := Term(TVar{v.recv})
+					if ok, _ := c13Arm(c, c.FuncObj(nat), &pp, recv, ct); ok {
+						good = true
+					}
+				}
+			}
+		}
+		ob.Check(good, "returns native(receiver) (or performs that conversion of the receiver itself)", "does not return native(receiver)")
 	}
 	if fd := c.NeedDecl("C13.R2", "(*object).Dict"); fd != nil {
 		n++
